@@ -73,6 +73,12 @@ func buildAvgZero(seed int64) (*Scenario, error) {
 		if rng.Intn(4) == 0 {
 			b.Tx(h, alice, Xfer(A, USD, amt(), Bo))
 		}
+		if h >= 118 && h <= 124 {
+			// a transfer sharing its batch with a conversion that cannot be priced (rate there, average not):
+			// the batch is all-or-nothing, the transfer must not go through on its own
+			b.Tx(h, bob, Xfer(Bo, USD, amt(), A), Conv(Bo, USD, amt(), XBT))
+			b.Tx(h, alice, Conv(A, USD, amt(), XBT), Xfer(A, USD, amt(), Bo), Conv(A, USD, amt(), EUR))
+		}
 	}
 	b.Note("avgzero: pXBT rate 0 in 114..119; its average is unavailable for the conversions executing at 120..123")
 	b.Dump(113, 114, 119, 120, 121, 123, 124, 125)
